@@ -1,6 +1,9 @@
 /-
   C17 — sf_command never touches more than datasize bytes, string commands terminate, queries are pure.
   Property theorems only (model: SfModel/Command.lean, helper lemmas: SfProofs/Command.lean).
+
+  The three statements hold at full strength since commits ff9108b, dc376ca, 8501a42 and 604e547 of /repo.
+  The last section keeps, as theorems about explicitly named OLD rules, what was wrong before them.
 -/
 import SfModel.Command
 import SfProofs.Command
@@ -9,32 +12,23 @@ open Sf.Command
 
 /-! ## C17, bounds part -/
 
-/-- The full statement: for every command id, handle, datasize and data pointer every byte range touched
-    lies inside [0, datasize), NULL is never dereferenced and the return value is defined. -/
-def cmd_in_bounds_full : Prop :=
-  ∀ (g : G) (h : Option H) (cmd : Int) (size : Nat) (data : Option Mem),
-    (run g h cmd size data).inBounds size = true ∧ (run g h cmd size data).retDefined = true
-
-/-- It holds outside the three known-finding classes (and only there is anything excluded). -/
-theorem cmd_in_bounds_partial (g : G) (h : Option H) (cmd : Int) (size : Nat) (data : Option Mem)
-    (hk : kfBounds h cmd size data = false) :
+/-- For every command id (defined or not), every handle (NULL or open, any state), every datasize ≥ 0 and
+    whatever lies behind the data pointer: every byte range `sf_command` reads or writes through data lies
+    inside [0, datasize), a NULL data pointer is never dereferenced, and the return value is defined
+    (does not depend on bytes outside the block). -/
+theorem cmd_in_bounds (g : G) (h : Option H) (cmd : Int) (size : Nat) (data : Option Mem) :
     (run g h cmd size data).inBounds size = true ∧ (run g h cmd size data).retDefined = true := by
-  have hk0 : kfStrlen0 cmd size data = false := by
-    simp only [kfBounds, Bool.or_eq_false_iff] at hk; exact hk.1.1
   unfold run
   cases hp : preHandle g h cmd size data with
-  | some r => exact preHandle_ok g h cmd size data r hk0 hp
+  | some r => exact preHandle_ok g h cmd size data r hp
   | none =>
     cases h with
     | none =>
       simp only []
       split
-      · rename_i hc
-        apply stringOut_ok
-        subst hc
-        cases data <;> simp_all [kfStrlen0, isStringCmd]
+      · apply stringOut_ok
       · simp [Res.inBounds, Res.retDefined]
-    | some hh => exact withHandle_ok hh cmd size data hk
+    | some hh => exact withHandle_ok hh cmd size data
 
 /-- a write-mode WAV / PCM16 handle, nothing written yet (the `w plain` handle of the grid) -/
 def wavW : H :=
@@ -46,54 +40,15 @@ def wavW : H :=
 
 def g0 : G := { verLen := 16, gLogLen := 0, simpleCount := 13, majorCount := 23, subtypeCount := 28 }
 
-/-- KF-C17-strlen0: SFC_GET_LIB_VERSION, datasize 0, zero-length block: strlen reads byte 0, the return value is undefined -/
-theorem lib_version_size0_fails :
-    (run g0 none 0x1000 0 (some ⟨0, fun _ => 0xA5⟩)).inBounds 0 = false ∧
-    (run g0 none 0x1000 0 (some ⟨0, fun _ => 0xA5⟩)).retDefined = false := by decide
-
-/-- KF-C17-strlen0 for SFC_GET_LOG_INFO on an open handle -/
-theorem log_info_size0_fails : (run g0 (some wavW) 0x1001 0 (some ⟨0, fun _ => 0⟩)).inBounds 0 = false := by decide
-
-/-- KF-C17-len-before-check: SFC_SET_BROADCAST_INFO with a 600-byte block reads bytes 604..607 -/
-theorem set_broadcast_len_before_check_fails :
-    (run g0 (some wavW) 0x10F1 600 (some ⟨600, fun _ => 0⟩)).inBounds 600 = false := by decide
-
-/-- … and SFC_SET_CART_INFO with a 2047-byte block reads bytes 2048..2051 -/
-theorem set_cart_len_before_check_fails :
-    (run g0 (some wavW) 0x1400 2047 (some ⟨2047, fun _ => 0⟩)).inBounds 2047 = false := by decide
-
-/-- KF-C17-crlf-last: 609 bytes, coding_history_size = 0, last byte LF: psf_strlcpy_crlf reads byte 609 -/
-theorem set_broadcast_crlf_last_fails :
-    (run g0 (some wavW) 0x10F1 609 (some ⟨609, fun i => if i + 1 = 609 then 10 else 0⟩)).inBounds 609 = false := by decide
-
-theorem cmd_in_bounds_fails : ¬ cmd_in_bounds_full := by
-  intro hf
-  have := (hf g0 none 0x1000 0 (some ⟨0, fun _ => 0xA5⟩)).1
-  rw [lib_version_size0_fails.1] at this
-  cases this
-
-/-- the excluded classes are not empty promises: each of the first two is violated at *every* point of the class -/
-theorem strlen0_class_exact (g : G) (h : Option H) (cmd : Int) (size : Nat) (data : Option Mem)
-    (hk : kfStrlen0 cmd size data = true) : (run g h cmd size data).retDefined = false := by
-  simp only [kfStrlen0, isStringCmd, Bool.and_eq_true, decide_eq_true_eq, Bool.decide_or, Bool.or_eq_true] at hk
-  obtain ⟨⟨hc, hs⟩, hd⟩ := hk
-  subst hs
-  cases data with
-  | none => simp at hd
-  | some m =>
-    rcases hc with hc | hc <;> subst hc
-    · simp [run, preHandle, stringOut, Res.retDefined]
-    · cases h with
-      | none => simp [run, preHandle, stringOut, Res.retDefined]
-      | some hh =>
-        have hcl : classify 0x1001 = Cls.k1001 := by decide
-        simp [run, preHandle, withHandle, hcl, stringOut, Res.retDefined]
-
-/-- non-vacuity of `cmd_in_bounds_partial`: the hypothesis is met by ordinary calls, which do touch data -/
-example : kfBounds (some wavW) 0x1002 32 (some ⟨32, fun _ => 0xA5⟩) = false ∧
-          (run g0 (some wavW) 0x1002 32 (some ⟨32, fun _ => 0xA5⟩)).writes = [(0, 32)] ∧
-          kfBounds (some wavW) 0x10F1 864 (some ⟨864, fun _ => 0⟩) = false ∧
-          (run g0 (some wavW) 0x10F1 864 (some ⟨864, fun _ => 0⟩)).ret = .exact 1 := by decide
+/-- non-vacuity: calls that do touch data, and the four formerly failing points now answered inside the block -/
+example : (run g0 (some wavW) 0x1002 32 (some ⟨32, fun _ => 0xA5⟩)).writes = [(0, 32)] ∧
+          (run g0 (some wavW) 0x10F1 864 (some ⟨864, fun _ => 0⟩)).ret = .exact 1 ∧
+          (run g0 none 0x1000 0 (some ⟨0, fun _ => 0xA5⟩)).reads = [] ∧
+          (run g0 none 0x1000 0 (some ⟨0, fun _ => 0xA5⟩)).ret = .exact 0 ∧
+          (run g0 (some wavW) 0x10F1 600 (some ⟨600, fun _ => 0⟩)).reads = [] ∧
+          (run g0 (some wavW) 0x10F1 600 (some ⟨600, fun _ => 0⟩)).err = some eBextSize ∧
+          (run g0 (some wavW) 0x10F1 609 (some ⟨609, fun i => if i + 1 = 609 then 10 else 0⟩)).reads = [(604, 608), (0, 608), (608, 609)] := by
+  decide
 
 /-! ## C17, string commands -/
 
@@ -118,66 +73,77 @@ example : (run g0 none 0x1000 17 (some ⟨17, fun _ => 0xA5⟩)).writes = [(0, 1
 
 /-! ## C17, queries are pure -/
 
-/-- The full statement: a command that only queries information leaves position, audio, settings and metadata as they were. -/
-def queries_are_pure_full : Prop :=
-  ∀ (g : G) (h : Option H) (cmd : Int) (size : Nat) (data : Option Mem),
-    isQuery cmd = true → sameState (run g h cmd size data).h' h = true
-
-theorem queries_are_pure_partial (g : G) (h : Option H) (cmd : Int) (size : Nat) (data : Option Mem)
-    (hq : isQuery cmd = true) (hk : kfCalcRdwr h cmd size data = false) :
-    sameState (run g h cmd size data).h' h = true := by
+/-- A command that only queries information leaves position, audio, settings and metadata as they were —
+    for every handle state, datasize and data. -/
+theorem queries_are_pure (g : G) (h : Option H) (cmd : Int) (size : Nat) (data : Option Mem)
+    (hq : isQuery cmd = true) : sameState (run g h cmd size data).h' h = true := by
   unfold run
   cases hp : preHandle g h cmd size data with
   | some r => simp [preHandle_pure g h cmd size data r hp, sameState]
   | none =>
     cases h with
     | none => simp only []; split <;> simp [stringOut, sameState] <;> (repeat' split) <;> simp
-    | some hh => exact withHandle_pure hh cmd size data hq hk
+    | some hh => exact withHandle_pure hh cmd size data hq
 
 /-- a read/write WAV handle with 8 frames written and the read cursor at 3 (the `rw used` handle of the grid) -/
 def wavRW : H := { wavW with mode := .rw, haveWritten := true, readCur := 3, writeCur := 8 }
 
-/-- KF-C17-calc-rdwr: SFC_CALC_SIGNAL_MAX moves the read cursor of a read/write handle to the write cursor -/
-theorem calc_signal_max_moves_read_cursor :
-    (run g0 (some wavRW) 0x1040 8 (some ⟨8, fun _ => 0⟩)).h' = some { wavRW with readCur := 8 } := by decide
-
-theorem queries_are_pure_fails : ¬ queries_are_pure_full := by
-  intro hf
-  have := hf g0 (some wavRW) 0x1040 8 (some ⟨8, fun _ => 0⟩) (by decide)
-  revert this
-  decide
-
-/-- the excluded class is exact: every point of it moves the read cursor -/
-theorem calc_rdwr_class_exact (g : G) (h : H) (cmd : Int) (size : Nat) (data : Option Mem)
-    (hk : kfCalcRdwr (some h) cmd size data = true) : sameState (run g (some h) cmd size data).h' (some h) = false := by
-  simp only [kfCalcRdwr, isCalcCmd, Bool.and_eq_true, decide_eq_true_eq, Bool.decide_or, Bool.or_eq_true] at hk
-  obtain ⟨⟨⟨⟨⟨hc, hd⟩, hm⟩, hsk⟩, hne⟩, hsz⟩ := hk
-  cases data with
-  | none => simp at hd
-  | some m =>
-    have hr : canRead h = true := by simp [canRead, hm]
-    rcases hc with hc | hc | hc | hc <;> subst hc
-    · have hcl : classify 0x1040 = Cls.k1040 := by decide
-      simp at hsz
-      simp [run, preHandle, withHandle, hcl, guardEq, hsz, hsk, hr, afterCalc, hm, sameState, H.core]
-      intro hx; exact hne hx.symm
-    · have hcl : classify 0x1041 = Cls.k1040 := by decide
-      simp at hsz
-      simp [run, preHandle, withHandle, hcl, guardEq, hsz, hsk, hr, afterCalc, hm, sameState, H.core]
-      intro hx; exact hne hx.symm
-    · have hcl : classify 0x1042 = Cls.k1042 := by decide
-      simp at hsz
-      simp [run, preHandle, withHandle, hcl, guardEq, hsz, hsk, hr, afterCalc, hm, sameState, H.core]
-      intro hx; exact hne hx.symm
-    · have hcl : classify 0x1043 = Cls.k1042 := by decide
-      simp at hsz
-      simp [run, preHandle, withHandle, hcl, guardEq, hsz, hsk, hr, afterCalc, hm, sameState, H.core]
-      intro hx; exact hne hx.symm
-
-/-- non-vacuity: queries that do write data, on handles where the hypothesis holds -/
-example : isQuery 0x1002 = true ∧ kfCalcRdwr (some wavRW) 0x1002 32 (some ⟨32, fun _ => 0⟩) = false ∧
-          (run g0 (some wavRW) 0x1002 32 (some ⟨32, fun _ => 0⟩)).writes = [(0, 32)] ∧
-          isQuery 0x1040 = true ∧ kfCalcRdwr (some wavW) 0x1040 8 (some ⟨8, fun _ => 0⟩) = false ∧
+/-- non-vacuity: queries that write data, SFC_CALC_SIGNAL_MAX on the handle with diverging cursors, and a
+    non-query that does change the handle -/
+example : isQuery 0x1002 = true ∧ (run g0 (some wavRW) 0x1002 32 (some ⟨32, fun _ => 0⟩)).writes = [(0, 32)] ∧
+          isQuery 0x1040 = true ∧ (run g0 (some wavRW) 0x1040 8 (some ⟨8, fun _ => 0⟩)).writes = [(0, 8)] ∧
+          (run g0 (some wavRW) 0x1040 8 (some ⟨8, fun _ => 0⟩)).h' = some wavRW ∧
           isQuery 0x1013 = false ∧ (run g0 (some wavW) 0x1013 0 none).h' ≠ some wavW := by decide
+
+/-! ## history: the four rules as they were before the repairs
+
+Nothing here is about the current code; `oldStringOut`, `oldVarSet`, `oldCrlfEnd`, `oldAfterCalc`
+(end of SfModel/Command.lean) are the rules the model used while the defects were known findings. -/
+
+/-- before ff9108b — SFC_GET_LIB_VERSION / SFC_GET_LOG_INFO with datasize 0 and a non-NULL buffer: nothing is
+    written, strlen reads at least byte 0 of a zero-length block, and the return value is undefined -/
+theorem strlen_after_empty_snprintf_old_rule (l : Nat) (m : Mem) (h : Option H) (e : Option Nat) (r : Int) :
+    (oldStringOut l 0 (some m) h e r).inBounds 0 = false ∧ (oldStringOut l 0 (some m) h e r).retDefined = false := by
+  simp [oldStringOut, Res.inBounds, Res.retDefined, rangeIn]
+
+/-- before dc376ca — `broadcast_var_set` / `cart_var_set` read the 4-byte length field at `sizeOff` whatever
+    datasize is: out of bounds for every datasize that does not reach past it -/
+theorem len_before_check_old_rule (sizeOff fixed cap eS eB : Nat) (h h2 : H) (size : Nat) (m : Mem)
+    (hs : size < sizeOff + 4) : (oldVarSet sizeOff fixed cap eS eB h size (some m) h2).inBounds size = false := by
+  unfold oldVarSet
+  simp only
+  split
+  · simp [Res.inBounds, rangeIn]; omega
+  · split
+    · simp [Res.inBounds, rangeIn]; omega
+    · simp [Res.inBounds, rangeIn]; omega
+
+/-- the same two inputs under the old and the new rule: SFC_SET_BROADCAST_INFO, 600-byte block -/
+theorem len_before_check_old_vs_new :
+    (oldVarSet bextSizeOff bextFixed bextCap eBextSize eBextBig wavW 600 (some ⟨600, fun _ => 0⟩) wavW).reads = [(604, 608)] ∧
+    (varSet bextSizeOff bextFixed bextCap eBextSize eBextBig wavW 600 (some ⟨600, fun _ => 0⟩) wavW).reads = [] := by decide
+
+/-- before 8501a42 — `psf_strlcpy_crlf` with one source byte left that is CR or LF looked at the byte after it:
+    609 bytes, coding_history_size = 0, last byte LF: byte 609 is read; the current rule stops at 609 -/
+theorem crlf_last_old_rule :
+    oldCrlfEnd (fun i => if i + 1 = 609 then 10 else 0) 1 608 16382 = 610 ∧
+    crlfEnd (fun i => if i + 1 = 609 then 10 else 0) 1 608 16382 = 609 ∧
+    (oldVarSet bextSizeOff bextFixed bextCap eBextSize eBextBig wavW 609
+        (some ⟨609, fun i => if i + 1 = 609 then 10 else 0⟩) wavW).inBounds 609 = false := by decide
+
+/-- the old rule never went further than that one byte -/
+theorem crlf_old_rule_one_byte (m : Nat → Nat) (n i room : Nat) : oldCrlfEnd m n i room ≤ i + n + 1 :=
+  oldCrlfEnd_le m n i room
+
+/-- before 604e547 — SFC_CALC_* on a read/write handle: the read cursor ends up on the write cursor, so a query
+    moved the handle whenever the two differed -/
+theorem calc_rdwr_old_rule (h : H) (hm : h.mode = .rw) (hne : h.readCur ≠ h.writeCur) :
+    (oldAfterCalc h).readCur = h.writeCur ∧ sameState (some (oldAfterCalc h)) (some h) = false := by
+  cases h with
+  | mk mode =>
+    simp only at hm
+    subst hm
+    simp [oldAfterCalc, sameState, H.core]
+    intro hx; exact absurd hx.symm hne
 
 end Sf.C17
